@@ -592,6 +592,11 @@ class IaSinr(Harness, _Sizes):
                                         fullF[j][:, m:m + 1]).item())**2
                 if abs(s1[k][l] - num / den) > 1e-7 * max(1, num / den):
                     bad.append('ia-sinr!=first-principles[%d]' % k)
+        # sum capacity = sum over ALL streams of log2(1 + SINR)
+        cap = sol.calc_sum_capacity()
+        ref = sum(float(np.log2(1.0 + x)) for k in range(K) for x in s1[k])
+        if abs(cap - ref) > 1e-9 * max(1.0, abs(ref)):
+            bad.append('sum-capacity')
         return bad
 
     def replay(self, cfg, name, model):
@@ -608,7 +613,21 @@ class IaSinr(Harness, _Sizes):
     def concrete(self, cfg, rng):
         for _ in range(4):
             assert not self._oracle(cfg, rng)
-        return 4
+        n = 4
+        if not cfg.get('mode') and not cfg.get('history'):
+            # several streams per user (beyond the symbolic bound of the
+            # quick tier): same oracle on the real code
+            from pysym.runner import ConcreteViolation
+            for big in (dict(K=2, Nr=[2, 2], Nt=[2, 2], Ns=[2, 1]),
+                        dict(K=3, Nr=[3, 3, 2], Nt=[3, 3, 2], Ns=[2, 3, 1])):
+                c2 = dict(cfg, **big)
+                bad = self._oracle(c2, rng)
+                if bad:
+                    raise ConcreteViolation(
+                        'C11/ia/several-streams:' + '+'.join(sorted(set(
+                            b.split('[')[0] for b in bad))), dict(cfg=c2))
+                n += 1
+        return n
 
 
 class ExtIntSinr(Harness, _Sizes):
